@@ -1028,6 +1028,15 @@ impl DecodedPixelData<'_> {
             photometric_interpretation,
         } = options;
 
+        // look-up tables are indexed by the stored bits
+        if self.bits_stored == 0 || self.bits_stored > self.bits_allocated {
+            return UnsupportedOtherSnafu {
+                name: "BitsStored",
+                value: self.bits_stored.to_string(),
+            }
+            .fail()?;
+        }
+
         let mut image = match self.bits_allocated {
             8 => {
                 let data = self.frame_data(frame)?;
@@ -1507,6 +1516,15 @@ impl DecodedPixelData<'_> {
             return UnsupportedOtherSnafu {
                 name: "PlanarConfiguration",
                 value: self.planar_configuration.to_string(),
+            }
+            .fail()?;
+        }
+
+        // look-up tables are indexed by the stored bits
+        if self.bits_stored == 0 || self.bits_stored > self.bits_allocated {
+            return UnsupportedOtherSnafu {
+                name: "BitsStored",
+                value: self.bits_stored.to_string(),
             }
             .fail()?;
         }
